@@ -393,11 +393,25 @@ func (e *env) dead(tr []string, mode int32, when string, pi, pt time.Duration) {
 		return
 	}
 	defer s.close()
+	if len(tr) > 1 {
+		// an upgraded session, on a link with some latency (a PONG takes longer than the server needs to start waiting for it)
+		select {
+		case <-s.upDone:
+		case <-time.After(4 * time.Second):
+		}
+		s.px.Delay(3 * time.Millisecond)
+	}
 	switch when {
 	case "after-ping":
 		rig.WaitUntil(pi+2*time.Second, func() bool { return lastEvent("eio.s.ping") })
 	case "after-pong":
-		rig.WaitUntil(pi+2*time.Second, func() bool { return lastEvent("eio.s.pong") })
+		if len(tr) > 1 {
+			// the client's answer has crossed the link (what the server's own record says is not trusted here)
+			rig.WaitUntil(pi+2*time.Second, func() bool { return lastEvent("eio.c.ping") })
+			time.Sleep(12 * time.Millisecond)
+		} else {
+			rig.WaitUntil(pi+2*time.Second, func() bool { return lastEvent("eio.s.pong") })
+		}
 	case "early":
 		time.Sleep(pi / 3)
 	case "upgrade":
@@ -511,6 +525,7 @@ func TestC14(t *testing.T) {
 		{[]string{"websocket"}, 1, "after-pong"}, {[]string{"websocket"}, 1, "after-ping"},
 		{[]string{"polling"}, 1, "after-pong"}, {[]string{"polling"}, 1, "early"},
 		{[]string{"websocket"}, 2, "after-pong"}, {[]string{"websocket"}, 3, "early"},
+		{[]string{"polling", "websocket"}, 1, "after-pong"}, // an upgraded session
 	}
 	if vres.Tier() == "thorough" {
 		for _, tr := range [][]string{{"websocket"}, {"polling"}, {"polling", "websocket"}} {
